@@ -75,8 +75,11 @@ package actor
 //@   ghost entry fr_sys_empty = false
 //@   ghost entry fr_resched = true
 //@   ghost entry fr_taken = true
+//@   at call 1 of invoke IsEmpty assert rechecks-the-mailboxes-after-giving-the-actor-up: pid.schedState.v.v == dispatchIdle
 //@   at call 1 of invoke IsEmpty ghost fr_empty = result
+//@   at call 1 of invoke IsEmpty interference PID.schedState
 //@   at call 2 of invoke IsEmpty ghost fr_sys_empty = result
+//@   at call 2 of invoke IsEmpty interference PID.schedState
 //@   at call 1 of (*dispatchState).TrySchedule ghost fr_resched = result
 //@   at call 1 of (*dispatchState).TakeForProcessing ghost fr_taken = result
 //@   ensures ends-the-turn-only-when-drained-or-handed-over: result ==> (fr_empty && fr_sys_empty) || !fr_resched || !fr_taken
